@@ -53,6 +53,10 @@ func c14Receivers() []c14Recv {
 		{"Object", "Array", list(obj()), tvSlice(1), false},
 		{"Any", "Single", &CTy{T: "top"}, tvStr("abc"), false},
 		{"Any", "Array", list(&CTy{T: "top"}), tvSlice(1, tvStr("a"), tvF64(1), tvBool(true)), false},
+		// objects carried by a struct type that marshals itself
+		{"Object", "Single", obj(), tvMarshObj("v", 2), false},
+		{"Object", "Array", list(obj()), tvSlice(0, tvMarshObj("v", 2), tvMarshObj("w", 3)), false},
+		{"Object", "Array", list(obj()), tvSlice(1, tvMarshObj("v", 2), tvPtr(tvMarshObj("w", 3))), false},
 		// lists of lists declared in the schema: the element of the outer list is a list, whose kind has no type of its own (Any)
 		{"Any", "Array", list(list(&CTy{T: "number"})), tvSlice(1, tvSlice(1, tvF64(1), tvF64(2)), tvSlice(1, tvF64(3))), false},
 		{"Any", "Array", list(list(&CTy{T: "string"})), tvSlice(1, tvSlice(1, tvStr("ab"), tvStr("cd")), tvSlice(1, tvStr("e"))), false},
